@@ -3,7 +3,7 @@
 # Applies the patch to a scratch copy of /repo (outside /repo and /verif), runs the given
 # checks against it with a scratch verif dir, prints the verdict lines, removes the copy.
 set -u
-PATCH="$1"; shift
+PATCH="$(readlink -f "$1")"; shift
 T="$(mktemp -d /tmp/seedtry.XXXXXX)"
 trap 'rm -rf "$T"' EXIT
 mkdir -p "$T/repo" "$T/verif"
